@@ -29,13 +29,36 @@ def gapped_text(s, rnd=None):
     return "".join(out)
 
 
+MAX_LEN = 4096  # the exhaustive families have lengths < 100; nothing longer is ever materialised
+
+
+class AbsurdLength(Exception):
+    """A real object claims a length far beyond anything the bounded inputs can produce."""
+
+
+class CaseTimeout(Exception):
+    """One replayed case exceeded its wall-clock limit."""
+
+
+def check_len(n, what="length"):
+    n = int(n)
+    if n < 0 or n > MAX_LEN:
+        raise AbsurdLength(f"{what} {n}")
+    return n
+
+
 def expand_spans(spans):
-    """span list -> entry list (parent index per position, LOST for lost spans)."""
+    """span list -> entry list (parent index per position, LOST for lost spans).
+
+    Refuses (AbsurdLength) to materialise spans whose claimed length is absurd."""
     out = []
     for sp in spans:
+        n = check_len(sp.length, "span length")
+        check_len(len(out) + n, "map length")
         if sp.lost:
-            out.extend([LOST] * int(sp.length))
+            out.extend([LOST] * n)
         else:
+            check_len(abs(int(sp.end) - int(sp.start)), "span extent")
             out.extend(int(i) for i in sp)
     return out
 
@@ -108,8 +131,8 @@ def im_repr(m):
     return {
         "gap_pos": [int(x) for x in m.gap_pos.tolist()],
         "cum": [int(x) for x in m.cum_gap_lengths.tolist()],
-        "plen": int(m.parent_length),
-        "len": len(m),
+        "plen": check_len(m.parent_length, "parent_length"),
+        "len": check_len(len(m), "len"),
     }
 
 
@@ -143,8 +166,11 @@ def _try(f):
 
 def im_observe(m):
     """Everything Describe(s) predicts, read from the real map through its public API."""
-    n = _try(lambda: len(m))
-    P = int(m.parent_length)
+    n = _try(lambda: check_len(len(m), "len"))
+    try:
+        P = check_len(m.parent_length, "parent_length")
+    except AbsurdLength as ex:
+        return {"len": n, "plen": f"raised:AbsurdLength({ex})"}
     obs = dict(im_repr(m)) if not isinstance(n, str) else {"len": n}
     obs["gap_coords"] = _try(lambda: pairs(m.get_gap_coordinates()))
     obs["gap_align"] = _try(lambda: pairs(m.get_gap_align_coordinates().tolist()))
